@@ -114,6 +114,13 @@ inductive Op where
   /-- handle_proving_deadline: expired pre-commits, on-time expirations (pledge released),
       fault/fee penalties, debt repayment in priority order, vesting, cron continuation -/
   | deadline (expiredPre : List Nat) (expiredSectors : List Nat) (penalty vested : Int)
+  /-- TerminateSectors with its inline `process_early_terminations`: `processed` = the sectors
+      popped from the early-termination queue in this call (their pledge is released),
+      `penalty` = their total termination fee -/
+  | terminate (processed : List Nat) (penalty vested : Int)
+  /-- ReportConsensusFault: `penalty` = consensus_fault_penalty, `slasherReward` =
+      reward_for_consensus_slash_report, `sendOk` = the transfer to the reporter succeeds -/
+  | consensusFault (penalty slasherReward vested : Int) (sendOk : Bool)
   deriving Repr, Inhabited
 
 structure Out where
@@ -253,6 +260,44 @@ def apply (chk : Bool) (s : St) (others : Int) : Op → Except Err (St × Out)
         | .ok s5 => match notify s5 others (-released - totalUnlocked - newlyVested) with
           | .error e => .error e
           | .ok s6 => .ok (s6, { ok := true, burnt := toBurn })
+
+  | .terminate processed penalty vested =>
+    if penalty < 0 ∨ vested < 0 ∨ s.lf < vested then .error .illegalArgument
+    else if processed.isEmpty then
+      (match checked chk s with
+       | .error e => .error e
+       | .ok s1 => .ok (s1, { ok := true }))
+    else
+      let (secs', released) := removeAll s.sectors processed
+      let s1 := { s with sectors := secs', ip := s.ip - released, debt := s.debt + penalty }
+      match repayPartial s1 vested with
+      | .error e => .error e
+      | .ok (s2, toBurn, totalUnlocked) =>
+        match burn s2 toBurn with
+        | .error e => .error e
+        | .ok s3 => match notify s3 others (-released - totalUnlocked) with
+          | .error e => .error e
+          | .ok s4 => match checked chk s4 with
+            | .error e => .error e
+            | .ok s5 => .ok (s5, { ok := true, burnt := toBurn })
+  | .consensusFault penalty slasherReward vested sendOk =>
+    if penalty < 0 ∨ slasherReward < 0 ∨ vested < 0 ∨ s.lf < vested then .error .illegalArgument
+    else
+      let s1 := { s with debt := s.debt + penalty }
+      match repayPartial s1 vested with
+      | .error e => .error e
+      | .ok (s2, burnAmount, totalUnlocked) =>
+        -- the reporter's reward is clamped at the funds burnt and carved out of them
+        let rewardAmount := min burnAmount slasherReward
+        let paid := if sendOk then rewardAmount else 0
+        let s3 := { s2 with balance := s2.balance - paid }
+        match burn s3 (burnAmount - paid) with
+        | .error e => .error e
+        | .ok s4 => match notify s4 others (-totalUnlocked) with
+          | .error e => .error e
+          | .ok s5 => match checked chk s5 with
+            | .error e => .error e
+            | .ok s6 => .ok (s6, { ok := true, burnt := burnAmount - paid, paid := paid })
 
 /-- one message: a failing message changes nothing -/
 def step (s : St) (others : Int) (op : Op) : St × Out :=
